@@ -45,7 +45,7 @@ func TestC11(t *testing.T) {
 	restore := faultsql.Install()
 	defer restore()
 	configs := []string{"memory", "memory-paged", "sqlite-file", "sqlite-batch1", "sqlite-batch2", "sqlite-batch3", "sqlite-batch5", "durable", "durable-chunk400"}
-	batches := []int{1, 2, 3, 5, 100, 0}
+	batches := []int{1, 2, 3, 5, 100, 0, -1}
 	maxLen := run.Scale(6, 12)
 	if !run.Thorough() {
 		batches = []int{1, 2, 100, 0}
@@ -88,7 +88,7 @@ func TestC11(t *testing.T) {
 				for start := 0; start <= L; start++ {
 					S := L - start
 					var fs []fail
-					fs = append(fs, fail{Kind: "none"}, fail{Kind: "pre-cancel"})
+					fs = append(fs, fail{Kind: "none"}, fail{Kind: "pre-cancel"}, fail{Kind: "reentrant-callback"})
 					for k := 1; k <= S; k++ {
 						fs = append(fs, fail{Kind: "cb-error", K: k}, fail{Kind: "cb-cancel", K: k})
 					}
@@ -170,6 +170,7 @@ func one(run *vk.Run, cfg string, st *stores.Opened, offs []ebu.Offset, batch, L
 	}
 	var got []int
 	cancelledAt := -1
+	nested, nestedBad := false, ""
 	err := bus.Replay(ctx, offs[start], func(e *ebu.StoredEvent) error {
 		var d struct{ ID int }
 		json.Unmarshal(e.Data, &d)
@@ -177,6 +178,20 @@ func one(run *vk.Run, cfg string, st *stores.Opened, offs []ebu.Offset, batch, L
 		n := len(got)
 		if f.Kind == "cb-error" && n == f.K {
 			return errCB
+		}
+		if f.Kind == "reentrant-callback" {
+			// the callback reads the same store and runs a nested replay: no lock may be held across it
+			if _, _, rerr := st.Store.Read(ctx, ebu.OffsetOldest, 1); rerr != nil {
+				return rerr
+			}
+			if !nested {
+				nested = true
+				cnt := 0
+				if nerr := bus.Replay(ctx, offs[start], func(*ebu.StoredEvent) error { cnt++; return nil }); nerr != nil || cnt != S {
+					nestedBad = fmt.Sprintf("nested Replay from inside the callback returned %v after %d of %d events", nerr, cnt, S)
+				}
+				nested = false
+			}
 		}
 		if f.Kind == "cb-cancel" && n == f.K {
 			cancel()
@@ -204,10 +219,14 @@ func one(run *vk.Run, cfg string, st *stores.Opened, offs []ebu.Offset, batch, L
 	}
 	viol := func(rule string) {
 		s := fam + ":" + rule
-		if truncated && (rule == "nil-after-incomplete-delivery" || rule == "delivery-not-a-prefix" || rule == "nil-after-cancel-with-events-remaining") {
+		if truncated && (rule == "nil-after-incomplete-delivery" || rule == "delivery-not-a-prefix" || rule == "nil-after-cancel-with-events-remaining" || rule == "reentrant-replay-from-callback") {
 			s = "durable:replay-nil-after-limit-truncated-page"
 		}
 		run.Violation(s, desc, witness)
+	}
+	if nestedBad != "" {
+		desc += "; " + nestedBad
+		viol("reentrant-replay-from-callback")
 	}
 	// 1. gap-free, duplicate-free, in-order prefix of the suffix after the start offset
 	for i, id := range got {
